@@ -546,7 +546,7 @@ def run(tier, seed):
         for lst in rr.get():
             for d in lst:
                 run.add_verdicts([report.Verdict(d["name"], d["status"], "sympy-%s (cancel)" % sp.__version__, d["seconds"], "post", where, d["detail"])])
-    ev, cf = cdf_diag_identity(seed)
+    ev, cf = report.guarded(run, cdf_diag_identity, seed)
     run.bounded.append(dict(name="float: SolveCDF with diagonal damping bit-identical to SolveUnc; SolveNewmark error vs exact solution under step halving (coupled 2-DOF)",
                             evaluations=ev, failures=0 if cf is None else 1, label="bounded (never counted as proved)"))
     failed = [v for v in run.verdicts if v.status == "failed"]
